@@ -45,6 +45,9 @@ CAT = {
     'type-alias': ('type label = string\n\ntype defined string\n\nfunc kinds(v interface{}) string {\n\tswitch v.(type) {\n\tcase string:\n\t\treturn "string"\n\tcase defined:\n\t\treturn "defined"\n\t}\n\treturn "other"\n}\n\nfunc aliasProbe() string { return kinds(label("x")) + kinds(defined("y")) + fmt.Sprintf("%T", label("z")) }\n',
                    ['label', 'defined', 'kinds', 'aliasProbe'], 'aliasProbe()'),
     'func-renamed-local-and-inner-fresh-name': ('func pick(n int) int {\n\treflect := n * 2\n\tout := reflect\n\t{\n\t\treflect2 := 100\n\t\tout += reflect2 + reflect\n\t}\n\tfmt2 := 1\n\tfmt := out + fmt2\n\treturn fmt\n}\n', ['pick'], 'pick(3)'),
+    'method-named-like-the-injector': ('type factoryBase struct{}\n\nfunc (factoryBase) Inject() string { return "base" }\n\ntype factory struct{ factoryBase }\n\nfunc (factory) Inject() string { return "factory" }\n',
+                                       ['factoryBase', 'Inject', 'factory', 'Inject'], 'factory{}.Inject() + factoryBase{}.Inject()'),
+    'func-three-index-slice-of-imported': ('func clip() string {\n\tbacking := []string{"a", "b", "c", "d", "e", "f"}\n\ts := backing[1:3:4]\n\ts = append(s, "X")\n\ts = append(s, "Y")\n\treturn $Sstrings.Join(backing, "") + $Sstrings.Join(s, "")\n}\n', ['clip'], 'clip()'),
     'func-string-rune-literals': ('func strs() string {\n\treturn "tab\\t" + `raw\\n` + string(\'x\') + string(\'\\n\') + "\\u00e9\\x41" + fmt.Sprint(\'a\', len("日本"), "q\\"q")\n}\n', ['strs'], 'strs()'),
 }
 
@@ -57,9 +60,9 @@ def files(rc):
     uses_strings = '$S' in decl or '$B' in decl
     # how the SOURCE file imports strings, and the qualifier it writes
     qual = {'plain': 'strings.', 'alias-differs': 'str.', 'dot-import': '', 'local-collides': 'strings.',
-            'same-base-two-imports': 'strings.', 'generated-alias-taken': 'str.'}[ctx]
+            'same-base-two-imports': 'strings.', 'generated-alias-taken': 'str.', 'dot-import-same-package-name': 'strings.'}[ctx]
     imp = {'plain': '\t"strings"\n', 'alias-differs': '\tstr "strings"\n', 'dot-import': '\t. "strings"\n', 'local-collides': '\t"strings"\n',
-           'same-base-two-imports': '\t"strings"\n', 'generated-alias-taken': '\tstr "strings"\n'}[ctx]
+           'same-base-two-imports': '\t"strings"\n', 'generated-alias-taken': '\tstr "strings"\n', 'dot-import-same-package-name': '\t"strings"\n'}[ctx]
     extra_decl = ''
     extra_names = []
     extra_probe = ''
@@ -78,6 +81,12 @@ def files(rc):
         extra_decl = ('func esc(s string) string {\n\tt := template.Must(template.New("t").Parse("{{.}}"))\n\tvar sb strings.Builder\n\tt.Execute(&sb, s)\n\treturn sb.String() + htemplate.HTMLEscapeString(s)\n}\n')
         extra_names = ['esc']
         extra_probe = ', esc("<a>")'
+    elif ctx == 'dot-import-same-package-name':
+        # a dot-imported package whose package NAME equals the name of the package being generated
+        imp += '\t. "%s"\n' % rc.pkgpath('b')
+        extra_decl = 'func useTwin(n int) int { return Twice(n) + TwinBase }\n'
+        extra_names = ['useTwin']
+        extra_probe = ', useTwin(4)'
     elif ctx == 'generated-alias-taken':
         # the package declares an identifier named like the import: the generated file must pick another alias
         extra_decl = 'func useReflectName() int { reflect2 := 3; return reflect2 }\n'
@@ -95,7 +104,10 @@ def files(rc):
         lib += '\nvar strings = "pkg-level"\n'
     drive = ('package %s\n\nimport (\n\t"fmt"\n\n\t"%s/rt"\n)\n\nvar _ func() Out = Inject\n\nfunc VerifDrive() {\n\trt.Reset(%d, %s, "Inject", 1)\n'
              '\trt.Note("probe", fmt.Sprint(upper("q"), " | ", %s%s))\n}\n' % (pkg, render.MOD, rc.ci, json.dumps(rc.case['key']), pr, extra_probe))
-    return {rc.dir + '/wire.go': src, rc.dir + '/lib.go': lib, rc.dir + '/drive.go': drive}, base_names + names + extra_names
+    out = {rc.dir + '/wire.go': src, rc.dir + '/lib.go': lib, rc.dir + '/drive.go': drive}
+    if ctx == 'dot-import-same-package-name':
+        out[rc.dir + '/b/twin.go'] = 'package %s\n\nvar TwinBase = 40\n\nfunc Twice(n int) int { return 2 * n }\n' % pkg
+    return out, base_names + names + extra_names
 
 
 TOP = re.compile(r'^(?:func (?:\([^)]*\) )?(\w+)|type (\w+)|var (\w+)|const (\w+)|(var|const|type) \($)', re.M)
